@@ -374,7 +374,7 @@ def run(tier, seed):
         for lang, bad in per.items():
             for did, why in bad.items():
                 st = str(why.get("status", ""))
-                if st.startswith("F3"):
+                if st.startswith(("F3", "F6")):
                     fid = st.split("-")[0]
                     k = next((x for x in known if x["id"] == fid), None)
                     if k:
